@@ -103,14 +103,17 @@ CHECKS = {
              "the pre-repair design and the recorded finding K4 are reachable). The REAL code runs over a syscall-shim "
              "file system: TLC -simulate crash behaviours are replayed step by step (call kind and state compared), "
              "random crash schedules and one execution per byte offset of a torn record (small records: every offset; records "
-             "of 4-9 KiB: around the block boundaries) are recorded, and TLC validates "
+             "of 4-9 KiB: around the block boundaries) are recorded, a live worker that never finishes is an event of its own, and "
+             "TLC validates "
              "every execution against the property-level trace spec (acknowledged appends visible to survivors and fresh "
              "readers, torn record all-or-nothing, readers never fail).",
         note="Trusted: TLC, the shim's file-system semantics (atomic create/rename, chunked append), process death = no "
              "further step. Grace period assumed longer than live critical sections. SQLite: a connection is killed at "
              "every SQL statement / commit boundary of every storage call (connection closed as the OS would), a survivor "
-             "goes on, and LinStorage requires the cut call to be wholly applied or wholly absent. Known finding K4 "
-             "(takeover race) is checked-modulo.",
+             "goes on, and LinStorage requires the cut call to be wholly applied or wholly absent; the first opener of a new "
+             "SQLite file also dies before each of its 52 statements and a second opener must find a usable storage. Known "
+             "finding K4 (takeover race) is checked-modulo and matched only when the waiter removes a lock file other than the "
+             "one it last looked at.",
         technique="TLA+ syscall-level spec model-checked with TLC; TLC crash behaviours replayed into the real code over "
                   "a syscall shim; recorded executions validated by TLC (trace validation)",
         ref="DESIGN.md section 4 C05, section 3.3",
